@@ -102,7 +102,17 @@ type Parser struct {
 
 	// The filename of the input
 	filename string
+
+	// depth is the nesting depth of the expression being parsed. It bounds
+	// the depth of the tree, which the parser, the compiler and the AST
+	// printers all walk recursively.
+	depth int
 }
+
+// maxDepth is the deepest tree the parser will build. Input nested more
+// deeply than this is rejected with a parse error instead of exhausting
+// the stack.
+const maxDepth = 10000
 
 // New returns a Parser for the program provided by the given Lexer.
 func New(l *lexer.Lexer, options ...Option) *Parser {
@@ -480,6 +490,11 @@ func (p *Parser) parseNode(precedence int) ast.Node {
 	if p.curToken.Type == token.EOF || p.err != nil {
 		return nil
 	}
+	entryDepth := p.depth
+	defer func() { p.depth = entryDepth }()
+	if !p.enter() {
+		return nil
+	}
 	postfix := p.postfixParseFns[p.curToken.Type]
 	if postfix != nil {
 		return postfix()
@@ -501,12 +516,28 @@ func (p *Parser) parseNode(precedence int) ast.Node {
 		if err := p.nextToken(); err != nil {
 			return nil
 		}
+		// Each operator applied here makes the tree one level deeper
+		if !p.enter() {
+			return nil
+		}
 		leftExp = infix(leftExp)
 		if p.err != nil {
 			break
 		}
 	}
 	return leftExp
+}
+
+// enter records that the tree being built gets one level deeper. It returns
+// false, with a parse error set, when that exceeds maxDepth. The caller puts
+// the depth back when it is done with the level.
+func (p *Parser) enter() bool {
+	p.depth++
+	if p.depth > maxDepth {
+		p.setTokenError(p.curToken, "maximum nesting depth exceeded")
+		return false
+	}
+	return true
 }
 
 func (p *Parser) parseExpression(precedence int) ast.Expression {
@@ -537,6 +568,11 @@ func (p *Parser) illegalToken() ast.Node {
 }
 
 func (p *Parser) setTokenError(t token.Token, msg string, args ...interface{}) ast.Node {
+	if p.err != nil {
+		// Only the first error is kept: do not build another one (with the
+		// text of its line) at every level that unwinds after it
+		return nil
+	}
 	p.setError(NewParserError(ErrorOpts{
 		ErrType:       "parse error",
 		Message:       fmt.Sprintf(msg, args...),
@@ -1076,7 +1112,11 @@ func (p *Parser) parseIf() ast.Node {
 		if p.peekTokenIs(token.IF) { // this is an "else if"
 			p.nextToken() // move to the "if"
 			nestedIfToken := p.curToken
+			if !p.enter() { // an "else if" chain nests one level per link
+				return nil
+			}
 			nestedIf := p.parseIf()
+			p.depth--
 			if nestedIf == nil {
 				if p.err == nil {
 					p.setTokenError(p.curToken, "invalid syntax in if expression")
